@@ -206,11 +206,10 @@ def check_long_element(case):
     perms = [tuple(p) for p in case["perms"]]
     P = [Perm(p) for p in perms]
     verdict = PW.has_finite_simples(P)
-    others = {
-        "Av.has_finitely_many_simples": Av(P).has_finitely_many_simples(),
-        "FinitelyManySimplesStrategy.applies": FinitelyManySimplesStrategy(P).applies(),
-        "reversed_listing": PW.has_finite_simples(list(reversed(P))),
-    }
+    others = {"Av.has_finitely_many_simples": Av(P).has_finitely_many_simples()}
+    if case.get("all_routes"):
+        others["FinitelyManySimplesStrategy.applies"] = FinitelyManySimplesStrategy(P).applies()
+        others["reversed_listing"] = PW.has_finite_simples(list(reversed(P)))
     for name, val in others.items():
         if val != verdict:
             return BAD("long_element_entry_points_disagree", {"basis": [list(p) for p in perms], "PinWords.has_finite_simples": verdict, name: val})
@@ -345,11 +344,14 @@ def shard_exhaustive(acc, shard, nshards, nmax):
 def shard_long(acc, shard, nshards, count):
     for i, basis in enumerate(LONG_BASES[:count]):
         if (nshards - 1 - i) % nshards == shard:
-            acc.record("long_element", check_long_element, {"perms": basis})
+            acc.record("long_element", check_long_element, {"perms": basis, "all_routes": count > 1})
 
 
 def shard_generated(acc, shard, nshards, n, max_len, nmax):
-    shard_long(acc, shard, nshards, 2 if n < 20 else 4)
+    count = 1 if n < 20 else 4
+    shard_long(acc, shard, nshards, count)
+    if shard >= nshards - count and nshards > count:
+        return  # the last shards are spent on the long elements (about a minute each)
     engine.hyp_run(acc, "basis", check_basis, basis_cases(max_len, nmax), n, shard)
 
 
